@@ -2,7 +2,9 @@
 (* V for C27: events recorded from REAL shells (daemon.Activate) and REAL daemons (daemon.Serve) racing
    freely -- the VerifPause hook only logs, through one mutex-protected tracer -- are checked to be a
    behaviour of Activation.  Logged events:
-     Init(p = none|stale|live)          a new world (races are concatenated); live: daemon 1 serves
+     Init(n, p = none|stale|live|bound) a new world, race number n (races are concatenated; End(n) closes
+                                        the last); live: daemon 1 serves; bound: a socket bound by a live
+                                        process that does not listen yet (made by the harness)
      ShellStart(s)                      before Activate
      H(s, p, arg)  H(d, p, arg)         a hook call: the point and, for the detect points, the status
      DaemonStart(d, s)                  inside spawn (startProcess): shell s starts daemon d
@@ -21,6 +23,12 @@ EXTENDS Activation, Json
 Trace == ndJsonDeserialize("trace.ndjson")
 VARIABLES l, sl, dl, pr, ex
 tv == <<l, sl, dl, pr, ex>>
+\* races are concatenated: Init(n = race number) ... Init(n+1) ... End.  Boundary(i) = the index of the
+\* first Init/End event at or after position i
+IsBoundary(i) == Trace[i].ev \in {"Init", "End"}
+RECURSIVE NextB(_)
+NextB(i) == IF i > Len(Trace) THEN Len(Trace) + 1 ELSE IF IsBoundary(i) THEN i ELSE NextB(i + 1)
+
 allvars == <<vars, tv>>
 T == Trace[l]
 Is(e) == l <= Len(Trace) /\ T.ev = e
@@ -34,7 +42,8 @@ ResetTo(kind) ==
   /\ listening' = IF kind = "live" THEN {1} ELSE {}
   /\ dbLock' = IF kind = "live" THEN 1 ELSE 0
   /\ dpc' = [d \in Daemons |-> IF d = 1 /\ kind = "live" THEN "serving"
-                               ELSE IF d = 1 /\ kind = "stale" THEN "crashed" ELSE "none"]
+                               ELSE IF d = 1 /\ kind = "stale" THEN "crashed"
+                               ELSE IF d = 1 /\ kind = "bound" THEN "bound" ELSE "none"]
   /\ hasdb' = [d \in Daemons |-> d = 1 /\ kind = "live"]
   /\ conns' = [d \in Daemons |-> {}] /\ closedc' = [d \in Daemons |-> {}] /\ backlog' = [d \in Daemons |-> {}]
   /\ spc' = [s \in Shells |-> "start"] /\ sconn' = [s \in Shells |-> 0] /\ tries' = [s \in Shells |-> 0]
@@ -46,7 +55,14 @@ ResetTo(kind) ==
 Init == /\ InitWith("none") /\ l = 1
         /\ sl = [s \in Shells |-> ""] /\ pr = [s \in Shells |-> ""] /\ ex = [s \in Shells |-> ""]
         /\ dl = [d \in Daemons |-> ""]
-Reset == Is("Init") /\ Adv /\ ResetTo(T.p)
+\* a race whose events were all explained is reported: <<"ACC", n>>.  Skip abandons a race at its
+\* beginning (so that the races after a rejected one are still judged); it reports nothing.
+Reset == Is("Init") /\ Adv /\ ResetTo(T.p) /\ (l = 1 \/ PrintT(<<"ACC", T.n - 1>>))
+End == Is("End") /\ Adv /\ PrintT(<<"ACC", T.n>>) /\ UNCHANGED <<vars, sl, dl, pr, ex>>
+Skip == /\ l > 1 /\ l <= Len(Trace) /\ Trace[l - 1].ev = "Init" /\ ~IsBoundary(l)
+        /\ LET b == NextB(l + 1) IN
+             IF b <= Len(Trace) /\ Trace[b].ev = "Init" THEN l' = b + 1 /\ ResetTo(Trace[b].p)
+             ELSE l' = Len(Trace) + 1 /\ UNCHANGED <<vars, sl, dl, pr, ex>>
 
 \* ---- logged events (no effect on the world)
 SetS(st) == sl' = [sl EXCEPT ![T.s] = st]
@@ -116,13 +132,13 @@ Internal ==
        \/ sl[s] \in {"spawned", "retry"} /\ pr[s] = "" /\ RetryDial(s) /\ pr' = [pr EXCEPT ![s] = DialOutcome] /\ UNCHANGED <<l, sl, dl, ex>>
        \/ ex[s] = "closing" /\ Exit(s) /\ UNCHANGED tv
   \/ \E d \in Daemons :
-       \/ dl[d] = "" /\ Listen(d) /\ UNCHANGED tv
+       \/ dl[d] = "" /\ (Listen(d) \/ StartListen(d)) /\ UNCHANGED tv
        \/ dl[d] = "listening" /\ OpenDb(d) /\ UNCHANGED tv
        \/ dl[d] = "serving" /\ (\E s \in Shells : Accept(d, s) \/ ConnDone(d, s)) /\ UNCHANGED tv
        \/ dl[d] = "before-remove" /\ RemoveSock(d) /\ UNCHANGED tv
        \/ dl[d] = "after-remove" /\ CloseDb(d) /\ UNCHANGED tv
        \/ dl[d] = "before-close" /\ CloseListener(d) /\ UNCHANGED tv
-TNext == Reset \/ ShellStart \/ Detected \/ BeforeRemove \/ AfterRemove \/ BeforeSpawn \/ DaemonStart \/ Spawned
+TNext == Reset \/ End \/ Skip \/ ShellStart \/ Detected \/ BeforeRemove \/ AfterRemove \/ BeforeSpawn \/ DaemonStart \/ Spawned
         \/ RetryDetected \/ ShellReturnOK \/ ShellReturnErr \/ ExitStart \/ ExitEnd \/ DaemonHook \/ DaemonReturn \/ Internal
 Spec == Init /\ [][TNext]_allvars
 
@@ -135,5 +151,6 @@ ASSUME TLCSet(1, 0)
 DiagView == <<init, sock, listening, dbLock, dpc, hasdb, conns, closedc, backlog, spc, sconn, tries, nsp, crashes, bad, tv>>
 Names == (IF ConnectedIsLive THEN <<>> ELSE <<"ConnectedIsLive">>) \o (IF OneServerPerSocket THEN <<>> ELSE <<"OneServerPerSocket">>)
          \o (IF ServeWhileClients THEN <<>> ELSE <<"ServeWhileClients">>) \o (IF RemoveOnlyOwn THEN <<>> ELSE <<"RemoveOnlyOwn">>)
-EmitViol == Safe \/ PrintT(ToJson([kind |-> "viol", init |-> init, inv |-> Names, at |-> l, steps |-> hist]))
+RaceNo == Trace[CHOOSE i \in 1..Len(Trace) : Trace[i].ev = "Init" /\ i < l /\ \A j \in (i + 1)..(l - 1) : Trace[j].ev # "Init"].n
+EmitViol == Safe \/ PrintT(ToJson([kind |-> "viol", race |-> RaceNo, init |-> init, inv |-> Names, at |-> l, steps |-> hist]))
 =============================================================================
